@@ -54,7 +54,8 @@ class FileAccessor(neuroglancer_scripts.accessor.Accessor):
     def file_exists(self, relative_path):
         relative_path = pathlib.Path(relative_path)
         file_path = self.base_path / relative_path
-        if ".." in file_path.relative_to(self.base_path).parts:
+        relative_parts = file_path.relative_to(self.base_path).parts
+        if ".." in relative_parts or not relative_parts:
             raise ValueError("only relative paths pointing under base_path "
                              "are accepted")
         try:
@@ -70,7 +71,8 @@ class FileAccessor(neuroglancer_scripts.accessor.Accessor):
     def fetch_file(self, relative_path):
         relative_path = pathlib.Path(relative_path)
         file_path = self.base_path / relative_path
-        if ".." in file_path.relative_to(self.base_path).parts:
+        relative_parts = file_path.relative_to(self.base_path).parts
+        if ".." in relative_parts or not relative_parts:
             raise ValueError("only relative paths pointing under base_path "
                              "are accepted")
         try:
@@ -93,7 +95,8 @@ class FileAccessor(neuroglancer_scripts.accessor.Accessor):
                    overwrite=False):
         relative_path = pathlib.Path(relative_path)
         file_path = self.base_path / relative_path
-        if ".." in file_path.relative_to(self.base_path).parts:
+        relative_parts = file_path.relative_to(self.base_path).parts
+        if ".." in relative_parts or not relative_parts:
             raise ValueError("only relative paths pointing under base_path "
                              "are accepted")
         mode = "wb" if overwrite else "xb"
@@ -164,7 +167,11 @@ class FileAccessor(neuroglancer_scripts.accessor.Accessor):
         xmin, xmax, ymin, ymax, zmin, zmax = chunk_coords
         chunk_filename = pattern.format(
             xmin, xmax, ymin, ymax, zmin, zmax, key=key)
-        return self.base_path / chunk_filename
+        chunk_path = self.base_path / chunk_filename
+        if ".." in chunk_path.relative_to(self.base_path).parts:
+            raise ValueError("only scale keys pointing under base_path "
+                             "are accepted")
+        return chunk_path
 
     def _flat_chunk_basename(self, key, chunk_coords):
         xmin, xmax, ymin, ymax, zmin, zmax = chunk_coords
